@@ -148,6 +148,16 @@ StepActs(r, a, m)    == a # 0 => m = Meaning(r)
 (* an explicit error is an answer only to a request that differs from an earlier one *)
 StepErrorOK(h, r, a) == a = 0 => \E j \in DOMAIN h : h[j].req # r
 
+(* a BLOCK of answered requests (the harness's filler requests: many cheap requests made between two identical ones):
+   as[k] answers the k-th request of the block; the requests of the block differ pairwise and from every request
+   of h, so that StepSame is vacuous on them and the conjunction of StepInj / StepErrorOK over the block is, in a
+   form that is linear in the length of the block (FactoryTrace checks the equivalence on the short blocks):
+   no answer is a task that answered an earlier request, and no two answers are the same task *)
+BlockInj(h, as)     == LET ids == {as[k] : k \in DOMAIN as} \ {0} IN
+                       /\ \A j \in DOMAIN h : h[j].resp \notin ids
+                       /\ Cardinality(ids) = Cardinality({k \in DOMAIN as : as[k] # 0})
+BlockErrorOK(h, as) == (as # <<>> /\ as[1] = 0) => h # <<>>
+
 Before(n) == SubSeq(hist, 1, n - 1)
 C15_Same == \A n \in DOMAIN hist : StepSame(Before(n), hist[n].req, hist[n].resp)
 C15_Inj  == \A n \in DOMAIN hist : StepInj(Before(n), hist[n].req, hist[n].resp)
